@@ -28,7 +28,11 @@ PositionsOK(o) == \A i \in 1 .. Len(o.toks) - 1 :
 OffsetsOK(o) == \A i \in DOMAIN o.toks :
                   /\ 0 <= o.toks[i][3] /\ o.toks[i][3] <= o.toks[i][4] /\ o.toks[i][4] <= o.n
                   /\ (o.offsets => o.toks[i][5] = <<o.toks[i][1]>>)
-StreamFacts(o) == [positions_increase |-> PositionsOK(o), offsets_delimit_source |-> OffsetsOK(o)]
+\* ... and no more than the source: where the analyzer splits at white space, a token's slice has none at its ends
+\* (toks[i][6] = 1 when it has)
+TightOK(o) == \A i \in DOMAIN o.toks : (o.offsets /\ "tight" \in DOMAIN o /\ o.tight /\ Len(o.toks[i]) >= 6) => o.toks[i][6] = 0
+StreamFacts(o) == [positions_increase |-> PositionsOK(o), offsets_delimit_source |-> OffsetsOK(o),
+                   offsets_exclude_surrounding_white_space |-> TightOK(o)]
 
 \* HTML output with the formatter's own tags taken out: no raw angle bracket is left, and every ampersand
 \* starts a character entity (so that the text, including a matched token, cannot be read as markup)
@@ -58,7 +62,7 @@ HighlightFacts(o) ==
 ObsOK(idx, m, q, o) ==
   CASE o.kind = "ids" -> o.ids = Ids(m)
     [] o.kind = "has" -> o.doc \in ToSet(o.ids)
-    [] o.kind = "stream" -> PositionsOK(o) /\ OffsetsOK(o)
+    [] o.kind = "stream" -> PositionsOK(o) /\ OffsetsOK(o) /\ TightOK(o)
     [] o.kind = "highlight" -> LET F == HighlightFacts(o) IN
          F.fragments_are_substrings /\ F.html_text_is_escaped /\ F.marks_inside_fragments /\ F.marked_spans_are_query_terms
          /\ F.marks_are_unions_of_matched_tokens
